@@ -79,16 +79,21 @@ def unlockOne (m : Nat → Option Kind) (rc : Nat → Int) (k : Nat) (kind : Kin
 
 /-- where a thread is paused (yield point it last reached) -/
 inductive Pc
-  | locking (i : Nat)    -- inside TryLock, `i` keys taken (`locking 0` = not started)
+  | locking    -- inside TryLock (`todo` = keys still to take; initially all of them)
   | checked (ok : Bool)  -- cs.check done
   | applied              -- cs.apply done
   | published            -- cs.publish done
-  | unlocking (j : Nat)  -- `j` keys still held; the next step releases key `j-1`
+  | unlocking  -- inside the (deferred) Unlock(succLocked)
   | done
   deriving DecidableEq, Repr, Inhabited
 
 structure Thread where
+  /-- the request's lock keys, sorted, as ExtractLockKeys returns them (constant) -/
   items : List Item
+  /-- keys TryLock has still to take -/
+  todo : List Item
+  /-- `succLocked`: the keys this thread holds, most recently taken first (Unlock releases in that order) -/
+  succ : List Item
   pc : Pc
   res : Res
   deriving Repr, Inhabited
@@ -103,16 +108,13 @@ structure Sys where
 
 def Sys.setThread (s : Sys) (t : Nat) (th : Thread) : Sys := { s with threads := s.threads.set t th }
 
-/-- the (deferred) `Unlock(succLocked)` with `j` keys left: release key `j-1`, or finish -/
-def beginUnlock (s : Sys) (t : Nat) (th : Thread) (j : Nat) : Sys :=
-  match j with
-  | 0 => s.setThread t { th with pc := .done }
-  | j + 1 =>
-    match th.items[j]? with
-    | some it =>
-      let r := unlockOne s.m s.rc it.key it.kind
-      { s with m := r.1, rc := r.2, threads := s.threads.set t { th with pc := .unlocking j } }
-    | none => s.setThread t { th with pc := .done }
+/-- one iteration of `Unlock(succLocked)`: release the most recently taken key, or finish -/
+def beginUnlock (s : Sys) (t : Nat) (th : Thread) : Sys :=
+  match th.succ with
+  | [] => s.setThread t { th with pc := .done }
+  | it :: rest =>
+    let r := unlockOne s.m s.rc it.key it.kind
+    { s with m := r.1, rc := r.2, threads := s.threads.set t { th with succ := rest, pc := .unlocking } }
 
 /-- thread `t` runs from its yield point to the next one -/
 def step (s : Sys) (t : Nat) : Sys :=
@@ -120,13 +122,15 @@ def step (s : Sys) (t : Nat) : Sys :=
   | none => s
   | some th =>
     match th.pc with
-    | .locking i =>
-      match th.items[i]? with
-      | some it =>
+    | .locking =>
+      match th.todo with
+      | it :: rest =>
         match lockOne s.m s.rc it.key it.kind with
-        | some r => { s with m := r.1, rc := r.2, threads := s.threads.set t { th with pc := .locking (i + 1) } }
-        | none => s.setThread t { th with pc := if i = 0 then .done else .unlocking i, res := .lockFail }
-      | none =>
+        | some r => { s with m := r.1, rc := r.2, threads := s.threads.set t { th with todo := rest, succ := it :: th.succ } }
+        | none =>
+          -- TryLock returns false; the caller's deferred Unlock(succLocked) follows (nothing to do if empty)
+          s.setThread t { th with pc := if th.succ.isEmpty then .done else .unlocking, res := .lockFail }
+      | [] =>
         -- TryLock returned true; cs.check
         if check s.store th.items then s.setThread t { th with pc := .checked true }
         else { s with log := s.log ++ [(t, false)],
@@ -134,26 +138,21 @@ def step (s : Sys) (t : Nat) : Sys :=
     | .checked true =>
       { s with store := applyW s.store t th.items, log := s.log ++ [(t, true)],
                threads := s.threads.set t { th with pc := .applied } }
-    | .checked false => beginUnlock s t th th.items.length
+    | .checked false => beginUnlock s t th
     | .applied => s.setThread t { th with pc := .published, res := .admitted }
-    | .published => beginUnlock s t th th.items.length
-    | .unlocking j => beginUnlock s t th j
+    | .published => beginUnlock s t th
+    | .unlocking => beginUnlock s t th
     | .done => s
+
+def newThread (items : List Item) : Thread :=
+  { items := items, todo := items, succ := [], pc := .locking, res := .running }
 
 /-- all requests submitted against `store`, nobody has started, the lock table is empty -/
 def init (store : Nat → Nat) (reqs : List (List Item)) : Sys :=
-  { m := fun _ => none, rc := fun _ => 0, store := store, log := [],
-    threads := reqs.map (fun items => { items := items, pc := .locking 0, res := .running }) }
+  { m := fun _ => none, rc := fun _ => 0, store := store, log := [], threads := reqs.map newThread }
 
-/-- number of keys of its list a thread currently holds (a prefix, keys are taken in order) -/
-def Thread.held (th : Thread) : Nat :=
-  match th.pc with
-  | .locking i => i
-  | .checked _ => th.items.length
-  | .applied => th.items.length
-  | .published => th.items.length
-  | .unlocking j => j
-  | .done => 0
+/-- the thread holds key `k` in mode `kd` (it is in its `succLocked`) -/
+def Thread.holds (th : Thread) (k : Nat) (kd : Kind) : Prop := ∃ it ∈ th.succ, it.key = k ∧ it.kind = kd
 
 /-- inside the critical section: TryLock returned true and Unlock has not started -/
 def Thread.inside (th : Thread) : Bool :=
